@@ -52,6 +52,13 @@ def ungated(F, R, rule='B.C06.ungated'):
                     '%s updates %s only after its freeze gate (%s): while paused the parameter\'s tween clock stands still, so a tween '
                     'issued during the pause does not start or finish when it is due' % (b.path, fld, [k for g, k in gates if g in late]),
                     detail={'fn': b.path, 'parameter': fld}, where=b.where(bb))
+            # ... and no exit of the function skips the update, unless the owner was just declared dead (mark_as_stopped):
+            # an early return on "no data yet" / "nothing to do" placed above it freezes fades and scheduled starts
+            marks = [x for x, t2 in b.calls() if (callee_path(t2) or '').endswith('::mark_as_stopped')]
+            from ..rules import must_pass
+            R.check(must_pass(b, [0], b.return_blocks(), [bb] + marks), rule, '%s|%s|every-path' % (b.path, fld.split('.')[-1]),
+                    '%s can return without having updated %s (and without stopping): a fade or a scheduled start does not '
+                    'advance on that path' % (b.path, fld), detail={'fn': b.path, 'parameter': fld}, where=b.where(bb))
     R.floor(rule, n, 8)
 
 
@@ -70,6 +77,9 @@ def run(ctx, R, tier):
     c05.when(F, R)
     c05.start_time_rule(F, R)
     cover(F, R)
+    # "independently of how time is partitioned into updates": modulators, clocks and listeners advance by dt * the number
+    # of frames of THIS chunk (the C05 rule)
+    c05.order(F, R)
 
 
 def cover(F, R):
